@@ -3,12 +3,15 @@ package checks
 import (
 	"bytes"
 	"encoding/hex"
+	"encoding/json"
 	"fmt"
 	"strconv"
 	"strings"
 
 	"github.com/indexsupply/shovel/dig"
 	"github.com/indexsupply/shovel/eth"
+	"github.com/indexsupply/shovel/shovel"
+	"github.com/indexsupply/shovel/shovel/config"
 	"golang.org/x/crypto/sha3"
 
 	"verif/harness/gen"
@@ -338,9 +341,22 @@ func c13Scenario(c *vk.Case, name string, fields []refmodel.Field) {
 	if emptyData {
 		c.Obs("scenarios_all_indexed_empty_data", 1)
 	}
-	ig, err, p := newIntegration(d, []dig.BlockData{{Name: "log_idx", Column: "log_idx"}})
+	// half of the scenarios build the integration the way the service does: configuration JSON -> config.ValidateFix ->
+	// shovel.NewDestination (whatever validation does to the event declaration is part of what is judged)
+	viaConfig := r.Bool()
+	var (
+		ig  dig.Integration
+		err error
+		p   *panicInfo
+	)
+	if viaConfig {
+		ig, err, p = newIntegrationViaConfig(d, []dig.BlockData{{Name: "log_idx", Column: "log_idx"}})
+		c.Obs("scenarios_built_via_configuration", 1)
+	} else {
+		ig, err, p = newIntegration(d, []dig.BlockData{{Name: "log_idx", Column: "log_idx"}})
+	}
 	if p != nil || err != nil {
-		c.Violate("dig.New-failed", map[string]any{"declaration": d.describe(), "panic": p, "err": fmt.Sprint(err)}, "dig.New failed for %s", d.describe())
+		c.Violate("dig.New-failed", map[string]any{"declaration": d.describe(), "panic": p, "err": fmt.Sprint(err), "via_configuration": viaConfig}, "building the integration failed for %s: %v", d.describe(), err)
 		return
 	}
 	sigText := refmodel.EventSignature(name, fields)
@@ -576,4 +592,45 @@ func c13Run(c *vk.Case) {
 		}
 	}
 	c.Evals(evals + c.Res.Obs["logs_matching"] + c.Res.Obs["logs_decoy"])
+}
+
+// newIntegrationViaConfig builds the integration of a declaration through the
+// configuration path of the service.
+func newIntegrationViaConfig(d *abiDecl, bd []dig.BlockData) (ig dig.Integration, err error, p *panicInfo) {
+	defer func() {
+		if r := recover(); r != nil {
+			p = capturePanic(r)
+		}
+	}()
+	direct, err, p0 := newIntegration(d, bd)
+	if err != nil || p0 != nil {
+		return direct, err, p0
+	}
+	raw, err := json.Marshal(map[string]any{
+		"pg_url":      "postgres://unused",
+		"eth_sources": []any{map[string]any{"name": "src", "chain_id": 1, "url": "http://127.0.0.1:9"}},
+		"integrations": []any{map[string]any{
+			"name": "ig_abi", "enabled": true, "sources": []any{map[string]any{"name": "src"}},
+			"table": direct.Table, "block": bd, "event": d.ev,
+		}},
+	})
+	if err != nil {
+		return ig, fmt.Errorf("encoding configuration: %w", err), nil
+	}
+	var root config.Root
+	if err := json.Unmarshal(raw, &root); err != nil {
+		return ig, fmt.Errorf("decoding configuration: %w", err), nil
+	}
+	if err := config.ValidateFix(&root); err != nil {
+		return ig, fmt.Errorf("validation: %w", err), nil
+	}
+	dest, err := shovel.NewDestination(root.Integrations[0])
+	if err != nil {
+		return ig, err, nil
+	}
+	got, ok := dest.(dig.Integration)
+	if !ok {
+		return ig, fmt.Errorf("destination is %T", dest), nil
+	}
+	return got, nil, nil
 }
